@@ -60,7 +60,8 @@ def run(v, tier, seed, replay):
     quick = tier == "quick"
     if quick:
         runs = [dict(dims=[2, 3], nxs=[2, 3, 4, 5, 6], nvar=2, steps=[1, 2, -3], maxhist=2),
-                dict(dims=[4], nxs=[2, 3, 5], nvar=2, steps=[1, 2, -3], maxhist=2)]
+                dict(dims=[4], nxs=[2, 3, 5], nvar=2, steps=[1, 2, -3], maxhist=2),
+                dict(dims=[5, 6], nxs=[2], nvar=1, steps=[1], maxhist=1)]      # the two largest dimensions have kernels of their own
     else:
         runs = [dict(dims=[2, 3], nxs=[2, 3, 4, 5, 6], nvar=3, steps=[1, 2, -3], maxhist=3),
                 dict(dims=[4], nxs=[2, 3, 4, 5, 6], nvar=3, steps=[1, 2, -3], maxhist=3),
